@@ -186,7 +186,15 @@ fn case_direct(t: &mut Tape, ctx: &CaseCtx) -> CaseResult {
     let config = config_of(&c);
     let params = RequestParams { source: if c.on_demand { InstallSource::OnDemand } else { InstallSource::ScheduledTask }, use_configured_proxies: false, disable_updates: c.disable_updates, offer_update_if_same_version: false };
     let handler = c.client_keys.as_ref().map(|k| StandardCupv2Handler::new(&cupref::public_keys(k[0], &k[1..])));
-    let apps: Vec<_> = c.apps.iter().map(build_app).collect();
+    let mut apps: Vec<_> = c.apps.iter().map(build_app).collect();
+    // the configured cohort assertion concerns update checks; by the time a client reports events it has usually
+    // adopted the cohort the server assigned in its answer ("1:1:"), or holds none
+    let events_with_other_cohort = events_only && t.flag();
+    if events_with_other_cohort {
+        for a in apps.iter_mut() {
+            a.cohort.id = if t.flag() { Some("1:1:".to_string()) } else { None };
+        }
+    }
     // request order: any permutation of the configured apps (update checks need all of them; event reports any non-empty subset)
     let mut order: Vec<usize> = (0..apps.len()).collect();
     match t.choose(3) {
@@ -380,6 +388,9 @@ fn case_direct(t: &mut Tape, ctx: &CaseCtx) -> CaseResult {
     }
     if c.require_cup {
         classes.push("require_cup");
+    }
+    if events_with_other_cohort {
+        classes.push("event_request_with_adopted_cohort");
     }
     if c.etag_override.is_some() {
         classes.push("forced_etag");
